@@ -98,4 +98,36 @@ def body(c, judge):
         t, i = L.find_event(tr, lambda e: e["act"] == "OptStep" and any(g.get("scale") for g in e["grads"]))
         next(g for g in t[i]["grads"] if g.get("scale"))["has_grad"] = True
         ctrls.append(("scale-gets-grad", t))
+    if judge == "C11":
+        grad_part(c, consts, ctrls)
     c.negative_controls("Trace_Lifecycle", ctrls, constants=consts)
+
+
+def grad_part(c, consts, ctrls):
+    """StraightThrough: gradients of quantized Linear / Conv2d against the float twin, ranks 2-4, upstream gradient layouts"""
+    import copy
+    cases = []
+    seed = c.seed
+    dtypes = ["float32", "float16"] if c.quick else ["float32", "float16", "bfloat16"]
+    for dt in dtypes:
+        for kind, ranks in (("linear", (2, 3, 4)), ("conv2d", (3, 4))):
+            for wq in ("qint8", "qfloat8", "qint4", "qint2"):
+                for aq in ("none", "qint8", "qfloat8"):
+                    for rank in ranks:
+                        for go in ("dense", "permuted", "expanded"):
+                            for frozen in (False, True):
+                                if c.quick and (hash((dt, kind, wq, aq, rank, go, frozen)) % 3):
+                                    continue
+                                seed += 1
+                                cases.append({"dtype": dt, "kind": kind, "wq": wq, "aq": aq, "rank": rank, "go": go, "frozen": frozen,
+                                              "bias": (seed % 4) != 0, "seed": seed})
+    tr = c.harness("h_grad.py", {"cases": cases}, timeout=3000)["traces"]
+    res = c.validate("Trace_Lifecycle", tr, chunk=80, constants=consts)
+    c.judge(tr, res, describe=lambda t: t[0]["case"])
+    c.extra["gradient_cases"] = len(tr)
+    ok = copy.deepcopy(next(t for t in tr if t[0]["outcome"] == "ok" and not t[0]["gw"]["missing"] and t[0]["case"]["dtype"] == "float32"))
+    ok[0]["gw"]["got"][0] = {"s": 1, "m": [0, 0, 0, 0, 0, 0, 0, 0, 0, 0, 0, 0, 5]}
+    ctrls.append(("weight-gradient-off", ok))
+    ok2 = copy.deepcopy(next(t for t in tr if t[0]["outcome"] == "ok" and t[0]["case"]["bias"]))
+    ok2[0]["b_has_grad"] = False
+    ctrls.append(("bias-gradient-missing", ok2))
